@@ -154,6 +154,10 @@ def gen_job(seed, profile="general"):
         it = {"type": "SolidBody", "umat": um}
         if r.random() < 0.15:
             it["multiplier"] = r.choice([0.5, 2.0])
+        if um["name"] == "Plastic" and dim == 3 and fkind == "Field" and kpick(seed, "plastic-in-condensed-body", 3) == 0:
+            # the strain-based history material inside the nearly-incompressible body (which adds its
+            # pressure term to the stress the material returns)
+            it = {"type": "SolidBodyNearlyIncompressible", "umat": um, "bulk": round(um["p"]["lmbda"] * 10.0, 6)}
         items.append(it)
         if r.random() < 0.12 and um["name"] not in ("LinearElastic",):
             # a second, superposed body on the same field (with or without its own multiplier)
